@@ -6,6 +6,7 @@ import (
 	"crypto/sha256"
 	"fmt"
 	"math/big"
+	"sort"
 	"strings"
 
 	sdk "github.com/cosmos/cosmos-sdk/types"
@@ -257,59 +258,77 @@ func (r *seqRun) flush() {
 	}
 	for _, pv := range pend {
 		r.sk.r.Extra["sum_violating_sequences_"+pv.assertion] = asInt(r.sk.r.Extra["sum_violating_sequences_"+pv.assertion]) + 1
-		path := append([]seqOp{}, r.path...)
-		detail := pv.detail
-		// a minimal form found earlier that is a subsequence of this path (ending in the same operation
-		// when the assertion belongs to the last operation) reproduces the same assertion: reuse it
-		key := fmt.Sprintf("%s|%s|%v|%s", pv.assertion, r.cfg.Name, pv.closing, path[len(path)-1])
-		if pv.closing {
-			key = fmt.Sprintf("%s|%s|closing", pv.assertion, r.cfg.Name)
-		}
-		reused := false
-		for _, m := range shrinkMemo[key] {
-			if isSubsequence(m.path, path) {
-				path, detail, reused = m.path, m.detail, true
-				break
-			}
-		}
-		if !reused {
-			for changed := true; changed; {
-				changed = false
-				for i := 0; i < len(path); i++ {
-					if !pv.closing && i == len(path)-1 {
-						break
-					}
-					cand := append(append([]seqOp{}, path[:i]...), path[i+1:]...)
-					if len(cand) == 0 {
-						continue
-					}
-					if hit, d := r.probe(cand, pv.assertion, pv.closing); hit {
-						path, detail, changed = cand, d, true
-						break
-					}
-				}
-			}
-			shrinkMemo[key] = append(shrinkMemo[key], shrunk{path, detail})
-		}
+		path, detail := r.canonical(r.path, pv)
 		r.sk.violation(pv.assertion, r.sigOf(path), r.sigOf(path)+": "+detail, SeqReplay{Part: 2, Config: *r.cfg, Ops: pathStrings(path)})
 	}
 }
 
-type shrunk struct {
-	path   []seqOp
-	detail string
-}
-
-var shrinkMemo = map[string][]shrunk{}
-
-func isSubsequence(sub, full []seqOp) bool {
-	i := 0
-	for _, o := range full {
-		if i < len(sub) && sub[i] == o {
-			i++
+// opRank orders operations as in the alphabet (kind, then size as listed); sizes outside the alphabet
+// (hand-written replays) sort after, by name.
+func opRank(o seqOp) string {
+	sizes := seqTradeSizes
+	if o.kind >= 6 {
+		sizes = seqExitSizes
+	}
+	idx := 9
+	for i, z := range sizes {
+		if z == o.size {
+			idx = i
 		}
 	}
-	return i == len(sub)
+	return fmt.Sprintf("%02d%d%s", o.kind, idx, o.size)
+}
+
+func pathRank(p []seqOp) string {
+	parts := make([]string, len(p))
+	for i, o := range p {
+		parts[i] = opRank(o)
+	}
+	return strings.Join(parts, ",")
+}
+
+// canonical maps a violating op list to its normal form, a function of the op list alone (independent of
+// exploration order, sharding and seed): among all subsequences that reproduce the same assertion (at
+// their last operation, which must be the original last operation, or in the closing evaluation), the
+// shortest, ties broken by alphabet order. Every earlier operation of a candidate must be accepted by the
+// real code and pass its own oracles.
+func (r *seqRun) canonical(full []seqOp, pv pendingViol) ([]seqOp, string) {
+	n := len(full)
+	type cand struct {
+		path []seqOp
+		rank string
+	}
+	byLen := map[int][]cand{}
+	for mask := 1; mask < 1<<uint(n); mask++ {
+		if !pv.closing && mask&(1<<uint(n-1)) == 0 {
+			continue
+		}
+		if mask == 1<<uint(n)-1 {
+			continue
+		}
+		var p []seqOp
+		for i := 0; i < n; i++ {
+			if mask&(1<<uint(i)) != 0 {
+				p = append(p, full[i])
+			}
+		}
+		byLen[len(p)] = append(byLen[len(p)], cand{p, pathRank(p)})
+	}
+	for l := 1; l < n; l++ {
+		cs := byLen[l]
+		sort.Slice(cs, func(i, j int) bool { return cs[i].rank < cs[j].rank })
+		prev := ""
+		for _, c := range cs {
+			if c.rank == prev {
+				continue
+			}
+			prev = c.rank
+			if hit, d := r.probe(c.path, pv.assertion, pv.closing); hit {
+				return c.path, d
+			}
+		}
+	}
+	return append([]seqOp{}, full...), pv.detail
 }
 
 func newSeqState(cfg *seqConfig) *seqState {
